@@ -310,6 +310,23 @@ def p_auto_in_workplace(thorough=False, H=8, timeout=150):
     return obs
 
 
+def p_conveyor(thorough=False, H=10, timeout=150):
+    """One component, conveyor line wp0 -> wp1 -> wp2.  Task 0 needs a facility at wp0; its successors are task 1 (no facility needed, but
+    bound to the component and assigned to wp1) and task 2 (facility at wp2, which accepts components from wp1 only)."""
+    obs = []
+    for k in (0, 1):
+        for wprule in (0, 1):
+            tasks = [{"w": "$w0", "nf": True, "comp": 0, "wprule": wprule}, {"w": "$w1", "comp": 0, "wprule": wprule}, {"w": "$w2", "nf": True, "comp": 0, "wprule": wprule}]
+            wps = [{"targets": [0], "cap": 1, "facs": [{"skills": {"0": 1}}]},
+                   {"targets": [1], "cap": 1, "facs": [{"skills": {"1": 1}}], "inputs": [0]},
+                   {"targets": [2], "cap": 1, "facs": [{"skills": {"2": "$fs2"}}], "inputs": [1]}]
+            ws = [{"skills": {"0": 1, "1": "$s1", "2": 1}, "fskills": {"0": 1, "1": 1, "2": 1}} for _ in range(2)]
+            spec = {"tasks": tasks, "edges": [[0, 1, k], [0, 2, 0]], "teams": [_team(ws, [0, 1, 2])], "wps": wps, "comps": [{"size": 1}], "run": {"max_time": H}}
+            obs.append({"name": "prod/conveyor/k=%s/wprule=%d" % (KN[k], wprule), "harness": "sim", "cube": {"spec": spec},
+                        "params": [["w0", 1, 2], ["w1", 1, 3 if thorough else 2], ["w2", 1, 2], ["s1", 0, 2], ["fs2", 0, 1]], "timeout": timeout})
+    return obs
+
+
 def with_bare_ids(obs):
     """The same members with the IDs "0", "1", ... for every kind of object (the ID text is then shared across kinds)."""
     return [dict(ob, name="bare/" + ob["name"], cube=dict(ob["cube"], spec=dict(ob["cube"]["spec"], idstyle="bare"))) for ob in obs]
@@ -650,6 +667,7 @@ def _obligations_for(prop, tier):
         obs += with_history(pj, "json-resume", 3, {"fs0": (1, 1), "fs1": (1, 1), "z0": (1, 2), "z1": (1, 1)})
         obs += [ob for ob in p_facility(thorough, timeout=900 if thorough else 150) if "2wp" in ob["name"] and "fsk=all" in ob["name"]]
         obs += [ob for ob in p_product("F2", thorough, timeout=900 if thorough else 150, auto_second=True) if "wps=2" in ob["name"] and ("wprule=0" in ob["name"] or thorough)]
+        obs += p_conveyor(thorough, timeout=900 if thorough else 150)
         return obs
     if prop == "C14":
         obs = []
